@@ -693,17 +693,23 @@ def c14(run, scratch):
     ev = cache_trace(run, scratch, "Trace_Cache_same", "same", 80 if t else 25, small if t else small[:2], _c14_corrupt,
                      lambda e: e["t"] == "same" and len(e["copies"]) > 2 and len(e["copies"][0]) > 0,
                      workers=14 if t else 10, extra=["--procs", 32 if t else 8])
+    big = [e for e in ev if e["t"] == "samebig"]
+    ev = [e for e in ev if e["t"] == "same"]
     if any(e["procs"] < (32 if t else 8) for e in ev):
         raise ToolError("C14: some child processes failed to write")
     run.sample({"copies_per_mapping": len(ev[0]["copies"]), "separately_started_processes": ev[0]["procs"],
                 "cache_len": len(ev[0]["copies"][0])})
+    if big:
+        run.extra["production_sized_mapping"] = {"method_lines": big[0]["method_lines"], "mapping_bytes": big[0]["mapping_len"],
+                                                 "writes_compared": len(big[0]["lens"]), "cache_bytes": big[0]["lens"][:1]}
     r = run_tlc(scratch, "MC_CacheParse", cfg="MC_CacheParse.cfg", workers=8, timeout=900)
     run.add_tlc("MC_CacheParse", r, note="implied length arithmetic")
     # histories of whole programs: every write of one mapping gives the same bytes whatever happened in between
     system_traces(run, scratch, 6 if t else 2, 600 if t else 400)
     system_programs(run, scratch, "write", 5 if t else 4)
     run.exhaustive = False
-    run.assumptions += COMMON_ASSUME + ["hash seeds differ between processes (std RandomState); in-process repeats and 4 threads per mapping"]
+    run.assumptions += COMMON_ASSUME + ["hash seeds differ between processes (std RandomState); in-process repeats and 4 threads per mapping",
+                                        "the copies of the production-sized mapping (200k method lines) are compared by length and a 64-bit FNV-1a digest computed by the harness"]
 
 
 def _c15_corrupt(ev):
